@@ -113,15 +113,14 @@ let err_class (e : cerr) : string =
   match e with
   | CENil -> "nil" | CETimeout -> "timeout" | CEGoAway -> "goaway" | CEConnClosed -> "closed"
   | CENoStreams -> "nostreams" | CENoIDs -> "noids" | CEReset c -> Printf.sprintf "reset%d" (int_of_n c)
-  | CEMalformed -> "malformed" | CEConn -> "conn" | CEWrite -> "write"
+  | CEMalformed -> "malformed" | CEConn -> "conn" | CEWrite -> "write" | CEBody -> "body"
 
 let lower (b : n list) : n list =
   List.map (fun x -> let c = int_of_n x in if c >= 65 && c <= 90 then n_of_int (c + 32) else x) b
 
 let resp_view (r : cresponse) : string =
   let status = let s = int_of_z r.cr_status in if s = 0 then 200 else s in
-  let cl = if status < 200 || status = 204 || status = 304 then "*"
-    else if int_of_z r.cr_cl = -3 then "0" else dec_of_zc r.cr_cl in
+  let cl = if int_of_z r.cr_cl = -3 then "0" else dec_of_zc r.cr_cl in
   let fs = List.stable_sort (fun (a, _) (b, _) -> compare (hex_of_bytes a) (hex_of_bytes b))
       (List.map (fun (k, v) -> (lower k, v)) r.cr_fields) in
   let fields = if fs = [] then "-" else
@@ -144,7 +143,7 @@ let run_cli (line_parts : string list) : string =
     let seen = ref 0 in
     let groups = ref ["hs:4:000200000000000300000064000400100000:8:983041"] in
     let hung = ref false in
-    let close_called = ref false and timer_gate = ref false in
+    let close_called = ref false and timer_gate = ref false and wl_held = ref false in
     let step e = st := cli_step cfg !st e in
     let wl_live () = not (!st).cc_wl_done && not (!st).cc_wl_stuck in
     let rl_live () = not (!st).cc_rl_done && not (!st).cc_rl_stuck in
@@ -153,10 +152,10 @@ let run_cli (line_parts : string list) : string =
       let continue = ref true and fuel = ref 10000 in
       while !continue && !fuel > 0 do
         decr fuel;
-        if wl_live () && (!st).cc_inQ <> [] then step CEvWLIn
-        else if wl_live () && (!st).cc_outQ <> [] then step CEvWLOut
-        else if wl_live () && (!st).cc_winCh then step (CEvWLWin order)
-        else if wl_live () && (!st).cc_closed then step CEvWLDone
+        if not !wl_held && wl_live () && (!st).cc_inQ <> [] then step CEvWLIn
+        else if not !wl_held && wl_live () && (!st).cc_outQ <> [] then step CEvWLOut
+        else if not !wl_held && wl_live () && (!st).cc_winCh then step (CEvWLWin order)
+        else if not !wl_held && wl_live () && (!st).cc_closed then step CEvWLDone
         else if rl_live () && (!st).cc_netClosed then step (CEvRL RLEof)
         else continue := false
       done in
@@ -175,7 +174,10 @@ let run_cli (line_parts : string list) : string =
           let recv_tag = ref (-1) in
           (match t.(0) with
            | "S" ->
-             step (CEvSubmit (n_of_int (int_of_string t.(1)), parse_req t, t.(2) = "1"))
+             step (CEvSubmit (n_of_int (int_of_string t.(1)), parse_req t, t.(2) = "1"));
+             step (CEvSubmitCheck (n_of_int (int_of_string t.(1))))
+           | "S1" -> step (CEvSubmit (n_of_int (int_of_string t.(1)), parse_req t, t.(2) = "1"))
+           | "S2" -> step (CEvSubmitCheck (n_of_int (int_of_string t.(1))))
            | "F" -> step (CEvRL (input_of_tokens t))
            | "B" ->
              (match t.(2) with
@@ -208,6 +210,32 @@ let run_cli (line_parts : string list) : string =
            | "C1" ->
              if not !close_called then begin close_called := true; step CEvClose end
            | "C2" -> step CEvCloseNet
+           | "HW" ->
+             (* a PING from the server; its acknowledgement takes the write loop round to the gate *)
+             if not !wl_held then begin
+               let payload = bytes_of_hex t.(1) in
+               if List.length payload = 8 then begin
+                 step (CEvRL (RFrame { sf_kind = KPing; sf_flags = n_of_int 0; sf_sid = n_of_int 0; sf_len = n_of_int 8; sf_payload = payload;
+                                       sf_dep = n_of_int 0; sf_code = n_of_int 0; sf_inc = n_of_int 0;
+                                       sf_set_hastable = false; sf_set_table = n_of_int 0; sf_set_haswin = false; sf_set_win = n_of_int 0 }));
+                 settle order;
+                 wl_held := true
+               end
+             end
+           | "RW" ->
+             if !wl_held then begin
+               wl_held := false;
+               (* the cases the write loop's select took before it took done, as observed *)
+               let counts = if Array.length t > 1 && String.length t.(1) > 2 then
+                   List.map int_of_string (String.split_on_char ',' (String.sub t.(1) 2 (String.length t.(1) - 2))) else [] in
+               (match counts with
+                | [a; b; c] ->
+                  for _ = 1 to a do step CEvWLIn done;
+                  for _ = 1 to b do step CEvWLOut done;
+                  for _ = 1 to c do step (CEvWLWin order) done;
+                  if (!st).cc_closed then step CEvWLDone
+                | _ -> ())
+             end
            | _ -> ());
           settle order;
           let out = List.rev (!st).cc_out in
